@@ -195,6 +195,22 @@ func (e *Engine) initIntrinsics() {
 		e.clock = tb.Ite(e.G, tb.BVOp(OpAdd, e.clock, d), e.clock)
 		return nil
 	}
+	// vpRunWithTick(f, d): f runs as a goroutine whose first ticker fires exactly once, d later (d = the ticker's period).
+	// Engine: the clock advances by d, the next ticker created holds one tick stamped with that instant, f runs until
+	// it blocks. (f must not read the clock before its ticker fires.)
+	I["vp:vpRunWithTick"] = func(e *Engine, a []Value, pos token.Pos, fn *ssa.Function) Value {
+		d := a[1].(*Term)
+		e.clock = tb.Ite(e.G, tb.BVOp(OpAdd, e.clock, d), e.clock)
+		e.tickPreload = true
+		c := &Catcher{PanicG: tb.False, BlockG: tb.False, CatchBlock: true}
+		e.catchers = append(e.catchers, c)
+		G0 := e.G
+		e.callFuncV(a[0].(*FuncV), nil, pos)
+		e.catchers = e.catchers[:len(e.catchers)-1]
+		e.G = tb.Or(e.G, tb.And(G0, c.BlockG))
+		e.tickPreload = false
+		return nil
+	}
 	I["vp:vpPanics"] = func(e *Engine, a []Value, pos token.Pos, fn *ssa.Function) Value {
 		c := &Catcher{PanicG: tb.False, BlockG: tb.False, CatchPanic: true}
 		e.catchers = append(e.catchers, c)
@@ -450,8 +466,15 @@ func (e *Engine) initIntrinsics() {
 		sv := e.zero(tt).(*StructV)
 		ct := types.NewChan(types.SendRecv, fn.Pkg.Pkg.Scope().Lookup("Time").Type())
 		nf := append([]Value(nil), sv.F...)
-		nf[0] = e.newChan(ct, 1, "ticker.C")
+		ch := e.newChan(ct, 1, "ticker.C")
+		nf[0] = ch
 		o.V = &StructV{nf}
+		if e.tickPreload {
+			e.tickPreload = false
+			for _, al := range ch.Alts {
+				e.enqueue(al.Obj, e.clock, pos)
+			}
+		}
 		return e.ptrTo(o)
 	}
 	I["time.NewTimer"] = I["time.NewTicker"]
